@@ -7,6 +7,7 @@ import Driver.OpsExpr
 import Driver.OpsCtc
 import Driver.OpsSym
 import Driver.OpsCov
+import Driver.OpsBuf
 open Ibex Ibex.Proto
 
 def dispatch (op : String) (ins outs : List String) : String :=
@@ -29,6 +30,9 @@ def dispatch (op : String) (ins outs : List String) : String :=
   | some r => r
   | none =>
   match Ibex.Driver.opsCov op ins outs with
+  | some r => r
+  | none =>
+  match Ibex.Driver.opsBuf op ins outs with
   | some r => r
   | none => "bad-op"
 
